@@ -87,6 +87,7 @@ static int cmd_worker(int argc, char **argv) {
 		printf("%s\n", line.c_str());
 		fflush(stdout);
 		++done;
+		if (rep.violations.size() >= 48) break; // a flood of violations (e.g. a race on every access): this worker has shown enough
 	}
 	uint64_t h, m, ci; model::memo_stats(h, m, ci);
 	printf("{\"type\":\"bye\",\"runs\":%llu,\"wall_s\":%.3f,\"model_hits\":%llu,\"model_misses\":%llu,\"model_cache_inits\":%llu}\n", (unsigned long long)done, now_s() - t0,
